@@ -927,6 +927,11 @@ func (ssl *SSLAuthenticator) exchangeSciToken(ctx context.Context, negotiation *
 
 		tokenSize := int(sizeBytes[0])<<24 | int(sizeBytes[1])<<16 | int(sizeBytes[2])<<8 | int(sizeBytes[3])
 		slog.Info("🔐 SSL: Expecting SciToken", "bytes", tokenSize, "destination", "cedar")
+		// The size is chosen by the peer: bound it before allocating (a token is a
+		// few kilobytes; the same 1 MiB limit as one TLS-over-CEDAR message).
+		if tokenSize < 0 || tokenSize > maxTLSMessageLen {
+			return "", fmt.Errorf("invalid SciToken size %d", tokenSize)
+		}
 
 		// Read token data
 		tokenBytes := make([]byte, tokenSize)
